@@ -49,6 +49,8 @@ def check(ctx):
         mode_setups = [i for i, e in enumerate(evs) if e[0] == "setup" and not e[1].startswith("annotated_type#")]
         if comp_setups and mode_setups and min(mode_setups) < max(comp_setups):
             problems.add(("modefirst", "an autonomous mode's setup() runs before every component's setup() has run (component setup must precede any other callback)"))
+        if any(e.kind == "reorder" for e in p.trace) and len([e for e in evs if e[0] == "create"]) >= 2:
+            problems.add(("reorder", "_create_components reorders the list of components by a key that depends on the components: setup() / on_enable() / on_disable() would not run in declaration order"))
         other = [e for e in evs if e[0] == "usercall"]
         for e in other:
             problems.add(("other", f"unexpected user callback {e[1]} during component creation"))
